@@ -1,11 +1,15 @@
 package main
 
 import (
+	"bufio"
+	"encoding/json"
 	"fmt"
 	"math/rand"
+	"os"
 	"runtime/debug"
 	"strconv"
 	"strings"
+	"unicode/utf8"
 
 	"github.com/alecthomas/participle/v2"
 	"github.com/alecthomas/participle/v2/lexer"
@@ -340,4 +344,56 @@ func deepRun(args []string) error {
 		return nil
 	}
 	return fmt.Errorf("unknown example %s", args[0])
+}
+
+func init() { commands["errfacts-run"] = errfactsRun }
+
+// errfacts-run <seed> <mutations per valid input>: one JSON event per FAILING parse of the example grammars with the raw
+// facts of C06's ErrOK clause (judged by Trace_ErrOK.tla).
+func errfactsRun(args []string) error {
+	seed, _ := strconv.Atoi(args[0])
+	n, _ := strconv.Atoi(args[1])
+	rng := rand.New(rand.NewSource(int64(seed)))
+	w := bufio.NewWriterSize(os.Stdout, 1<<20)
+	defer w.Flush()
+	enc := json.NewEncoder(w)
+	emit := func(e *exampleParser, in string) {
+		defer func() { _ = recover() }()
+		raw, lerr := e.lex(in)
+		ast, err := e.parse("fn", in)
+		if err == nil {
+			return
+		}
+		ev := map[string]any{"grammar": e.name, "input": in, "chars": charsOf(in), "off": -1, "line": 0, "col": 0, "isError": false, "fileOk": false,
+			"textOk": false, "kind": "other", "tokenInStream": false, "lexFailed": lerr != nil, "astNil": isNilAny(ast)}
+		if pe, ok := err.(participle.Error); ok {
+			pos := pe.Position()
+			ev["isError"] = true
+			ev["off"], ev["line"], ev["col"] = pos.Offset, pos.Line, pos.Column
+			ev["fileOk"] = pos.Filename == "fn"
+			ev["textOk"] = strings.HasPrefix(err.Error(), fmt.Sprintf("fn:%d:%d: ", pos.Line, pos.Column)) && strings.HasSuffix(err.Error(), pe.Message())
+			if ut, ok := err.(*participle.UnexpectedTokenError); ok {
+				ev["kind"] = "unexpected"
+				for _, t := range raw {
+					if t.Pos == ut.Unexpected.Pos && t.Value == ut.Unexpected.Value && t.Type == ut.Unexpected.Type {
+						ev["tokenInStream"] = true
+					}
+				}
+			}
+		}
+		enc.Encode(ev)
+	}
+	for _, e := range examples() {
+		for _, v := range e.valid {
+			for i := 0; i < n; i++ {
+				m := mutate(rng, v)
+				if !utf8.ValidString(m) {
+					m = strings.ToValidUTF8(m, "?") // JSON transport; invalid bytes are covered by the grammar-family part
+				}
+				emit(e, m)
+			}
+		}
+		emit(e, "")
+	}
+	return nil
 }
